@@ -200,3 +200,42 @@ def mm_fields(i: int) -> bool:
         if bytes.fromhex(c_boundary(coinbase_tx_get_hash)(c_boundary(bu.get_coinbase_txn)(hx))) != info["cb_hash"]:
             return False
     return True
+
+
+# ------------------------------------------------------------------ two requests on one manager
+
+BLOCK_A2, BLOCK_A2_INFO = mk_header(19, seed=1, cb_len=151)        # same hashed fields as BLOCK_A, another coinbase
+BRO_1B, BRO_1B_INFO = mk_header(19, seed=3, cb_len=199, mmproof_len=96)
+assert BLOCK_A2_INFO["hash_preimage"] == BLOCK_A_INFO["hash_preimage"] and BLOCK_A2_INFO["cb_hash"] != BLOCK_A_INFO["cb_hash"]
+
+
+@obligation(tier="quick", parts=2, timeout=200, part_names=["as block", "as brother"],
+            bounds="two advanceBlockchain requests on ONE manager / dongle object: a header, then a header with the same block hash but a "
+                   "different coinbase transaction (and the other way round - symbolic order; chunk class symbolic): each is preceded by "
+                   "ITS metadata",
+            examples=[(0, dict(first=True, ci=0)), (1, dict(first=False, ci=1))])
+def same_hash_other_coinbase(first: bool, ci: int) -> bool:
+    """
+    pre: 0 <= ci <= 2
+    post: _
+    """
+    as_brother = part() == 1
+    pair = [(BRO_1, BRO_1_INFO), (BRO_1B, BRO_1B_INFO)] if as_brother else [(BLOCK_A, BLOCK_A_INFO), (BLOCK_A2, BLOCK_A2_INFO)]
+    if not first:
+        pair = pair[::-1]
+    d = SimDevice()
+    d.chunk = CHUNKS[ci]
+    proto, dongle, world = make_stack(d)
+    for (raw, info) in pair:
+        if as_brother:
+            req = {"command": "advanceBlockchain", "version": 5, "blocks": [BLOCK_A.hex()], "brothers": [[raw.hex()]]}
+        else:
+            req = {"command": "advanceBlockchain", "version": 5, "blocks": [raw.hex()], "brothers": [[]]}
+        out = handle(proto, req)
+        if out != ("reply", {"errorcode": 0}) or world.violations:
+            return False
+        blk = d.block_op["blocks"][0]
+        got = blk["brothers"][0] if as_brother else blk
+        if got["data"] != list(raw) or got["cb_hash"] != list(info["cb_hash"]) or got["mm_payload_len"] != info["mm_payload_len"]:
+            return False
+    return True
